@@ -111,18 +111,37 @@ def run(cx):
                 return "ret=?call:" + c.fn.split("::")[-1]
             return None
         ws = {fmt_word(w) for w in seq_words(b, call_sym2, stmt_sym, extra)}
-        want = {
-            "aff=Allowed|Never ret=false <return>", "aff=High is-self=true ret=false <return>", "aff=High is-self=false no-address=true ret=false <return>",
-            "aff=High is-self=false no-address=false connected=true ret=false <return>",
-            "aff=High is-self=false no-address=false connected=false pending=true ret=false <return>",
-            "aff=High is-self=false no-address=false connected=false pending=false ret=backoff-elapsed-or-none <return>"}
+        # order-insensitive semantics of the conjunction: a path may answer "eligible" only after ALL tests passed;
+        # every other path answers false and has at least one failed test.
+        need = {"aff": "High", "is-self": "false", "no-address": "false", "connected": "false", "pending": "false"}
         ob.count(len(ws))
-        for w in sorted(ws - want):
-            ob.fail("refuted", "eligible/unexpected/" + w.replace(" ", "_")[:140], f"eligibility predicate: path `{w}` is not in the specified table", b.path, b.loc(), path=w)
-        for w in sorted(want - ws):
-            ob.fail("refuted", "eligible/missing/" + w.replace(" ", "_")[:140], f"eligibility predicate: required row `{w}` missing", b.path, b.loc(), path=w)
-        if ws == want:
-            ob.matched += len(ws)
+        n_true = 0
+        for w in sorted(ws):
+            toks = w.split()
+            conds = dict(t.split("=", 1) for t in toks if "=" in t and not t.startswith("ret="))
+            ret = [t for t in toks if t.startswith("ret=")]
+            odd = [t for t in toks if t.startswith("?") or t.startswith("ret=?")]
+            if odd or len(ret) != 1:
+                ob.fail("refuted", "eligible/unrecognised/" + w.replace(" ", "_")[:140], f"eligibility predicate: unrecognised path `{w}`", b.path, b.loc(), path=w)
+                continue
+            if ret[0] == "ret=backoff-elapsed-or-none" or ret[0] == "ret=true":
+                n_true += 1
+                missing = {k: v for k, v in need.items() if conds.get(k) != v}
+                if ret[0] == "ret=true":
+                    missing["backoff"] = "elapsed-or-none"
+                if missing:
+                    ob.fail("refuted", "eligible/too-permissive/" + "+".join(sorted(missing)), f"eligibility predicate: path `{w}` answers eligible without requiring {missing}", b.path, b.loc(), path=w)
+                else:
+                    ob.matched += 1
+            elif ret[0] == "ret=false":
+                failed = [k for k, v in need.items() if k in conds and not (conds[k] == v)]
+                if not failed:
+                    ob.fail("refuted", "eligible/too-strict/" + w.replace(" ", "_")[:140], f"eligibility predicate: path `{w}` answers false although every test it made passed", b.path, b.loc(), path=w)
+                else:
+                    ob.matched += 1
+            else:
+                ob.fail("refuted", "eligible/unrecognised-result/" + w.replace(" ", "_")[:140], f"eligibility predicate: path `{w}`", b.path, b.loc(), path=w)
+        ob.require(n_true >= 1, "eligible/some-eligible-path", "eligibility predicate never answers eligible", b.path)
         ob.set_sample({"closure": b.path, "table": sorted(ws)})
         # the guards captured are the live maps
         caps = {u["name"] for u in b.upvars}
